@@ -6,6 +6,9 @@ lists (any length; 1-, 2-, 3- and 4-byte characters, quotes, backslash, controls
 the repr theorems, over EVERY behaviour of `strconv.IsPrint` (parameter `isPrint`).
 -/
 import GPy.C14.Proofs
+import GPy.C14.Ops
+import GPy.C14.Cmp
+import GPy.C14.GetItem
 namespace GPy.C14
 open Spec (Scalar)
 
@@ -160,5 +163,290 @@ theorem repr_roundtrip_bytes (b : List Nat) (hb : ∀ c ∈ b, c < 256) (rest : 
 example : ∀ c ∈ [39, 34, 92, 10, 0, 0xE9, 0x20AC, 0x1F600], Scalar c := by decide
 example : readString (escapeRunes (fun _ => true) [39, 34, 92, 10, 0, 0xE9, 0x1F600] ++ [44, 32]) =
     .ok (.str (encodeAll [39, 34, 92, 10, 0, 0xE9, 0x1F600])) [44, 32] := by decide
+
+/-! ### second round: searching is code-point searching (UTF-8 self-synchronisation) -/
+
+/-- **utf8_sync**: the encoding of a non-empty string `sub` occurs in the encoding of `s` at byte offset `k`
+ONLY IF `k` is the byte offset of some code point `i` of `s` and `sub` occurs in `s` at code point `i`:
+a valid needle never matches in the middle of a multi-byte character -/
+theorem utf8_sync (s sub : List Nat) (hs : ∀ c ∈ s, Scalar c) (hsub : ∀ c ∈ sub, Scalar c) (hne : sub ≠ [])
+    (k : Nat) (h : (encodeAll sub).isPrefixOf ((encodeAll s).drop k) = true) :
+    ∃ i, i ≤ s.length ∧ k = (encodeAll (s.take i)).length ∧ sub.isPrefixOf (s.drop i) = true :=
+  sync_encode s sub hs hsub hne k h
+
+/-- the converse direction: an occurrence at a code point is an occurrence at its byte offset -/
+theorem utf8_sync_conv (s sub : List Nat) (hs : ∀ c ∈ s, Scalar c) (hsub : ∀ c ∈ sub, Scalar c) (i : Nat)
+    (h : sub.isPrefixOf (s.drop i) = true) :
+    (encodeAll sub).isPrefixOf ((encodeAll s).drop (encodeAll (s.take i)).length) = true := by
+  have : (encodeAll s).drop (encodeAll (s.take i)).length = encodeAll (s.drop i) := by
+    conv => lhs; rw [encodeAll_take_drop s i]
+    simp
+  rw [this, isPrefixOf_encode (s.drop i) sub (fun c hc => hs c (List.mem_of_mem_drop hc)) hsub]
+  exact h
+
+-- non-vacuity: U+00E9 = C3 A9 and U+0269 = C9 A9 share their second byte, U+20AC = E2 82 AC; the needle
+-- "é" occurs in "ɩé€é" at code points 1 and 3 (byte offsets 2 and 7) and nowhere else
+example : (encodeAll [0xE9]).isPrefixOf ((encodeAll [0x269, 0xE9, 0x20AC, 0xE9]).drop 7) = true := by decide
+
+/-- `sub in s` (`String.M__contains__` = strings.Contains on the stored bytes) -/
+theorem contains_spec (s sub : List Nat) (hs : ∀ c ∈ s, Scalar c) (hsub : ∀ c ∈ sub, Scalar c) :
+    contains (encodeAll s) (encodeAll sub) = Spec.contains s sub := by
+  unfold contains Spec.contains
+  rw [index_fidx, find_fidx, fidx_encode s sub hs hsub]
+  cases fidx sub s <;> simp
+
+/-- `strings.Index` on the stored bytes returns the BYTE offset of the first code-point occurrence -/
+theorem index_spec (s sub : List Nat) (hs : ∀ c ∈ s, Scalar c) (hsub : ∀ c ∈ sub, Scalar c) :
+    index (encodeAll s) (encodeAll sub) =
+      if Spec.find s sub < 0 then -1 else ((encodeAll (s.take (Spec.find s sub).toNat)).length : Int) := by
+  rw [index_fidx, find_fidx, fidx_encode s sub hs hsub]
+  cases fidx sub s with
+  | none => simp
+  | some i =>
+    have : ¬ ((i : Int) < 0) := by omega
+    simp [this]
+
+/-- **find_spec**: `s.find(sub[, start[, end]])` with start/end as CODE-POINT indices (absent, None, negative,
+beyond the end, beyond int64): the code-point index of the first occurrence inside the window, or -1.
+`hlen`: the string's length fits a Go int. -/
+theorem find_spec (s sub : List Nat) (hs : ∀ c ∈ s, Scalar c) (hsub : ∀ c ∈ sub, Scalar c) (a b : Arg)
+    (hlen : (s.length : Int) < IntMax) :
+    agrees (strFind (encodeAll s) (encodeAll sub) a b) (Spec.strFind s sub (argToSpec a) (argToSpec b)) :=
+  strFind_encode s sub hs hsub a b hlen
+
+/-- **count_spec**: `s.count(sub[, start[, end]])`: non-overlapping occurrences inside the window; for the empty
+needle the number of code points of the window plus one -/
+theorem count_spec (s sub : List Nat) (hs : ∀ c ∈ s, Scalar c) (hsub : ∀ c ∈ sub, Scalar c) (a b : Arg)
+    (hlen : (s.length : Int) < IntMax) :
+    agrees (strCount (encodeAll s) (encodeAll sub) a b) (Spec.strCount s sub (argToSpec a) (argToSpec b)) :=
+  strCount_encode s sub hs hsub a b hlen
+
+-- non-vacuity of the hypotheses (2-, 3-byte characters; the length bound) and the model's answer at that point
+example : (∀ c ∈ [0x269, 0xE9, 0x20AC, 0xE9], Scalar c) ∧ ((([0x269, 0xE9, 0x20AC, 0xE9] : List Nat).length : Nat) : Int) < IntMax := by decide
+example : strFind (encodeAll [0x269, 0xE9, 0x20AC, 0xE9]) (encodeAll [0xE9]) (.int (-2)) .none = .ok (.int 3) := by decide
+example : strCount (encodeAll [0x269, 0xE9, 0x20AC, 0xE9]) (encodeAll [0xE9]) .absent (.int (2 ^ 63)) = .ok (.int 2) := by decide
+
+/-- **replace_spec**: `s.replace(old, new[, count])` for every count argument (absent, None → TypeError, negative,
+zero, beyond int64 → OverflowError), `old` empty (insertion between code points, never inside one) or not -/
+theorem replace_spec (s old new : List Nat) (hs : ∀ c ∈ s, Scalar c) (hold : ∀ c ∈ old, Scalar c)
+    (hnew : ∀ c ∈ new, Scalar c) (cnt : Arg) :
+    agrees (strReplace (encodeAll s) (encodeAll old) (encodeAll new) cnt) (Spec.strReplace s old new (argToSpec cnt)) :=
+  strReplace_encode s old new hs hold hnew cnt
+
+example : strReplace (encodeAll [0x1F600, 0xE9]) (encodeAll []) (encodeAll [0x2D]) .absent
+    = .ok (.str (encodeAll [0x2D, 0x1F600, 0x2D, 0xE9, 0x2D])) := by decide
+
+/-- **split_spec**: `s.split(sep[, maxsplit])` for a separator string (empty → ValueError) and for `None`
+(runs of Python whitespace), every maxsplit argument. `hlen`: the string's length fits a Go int. -/
+theorem split_spec (s : List Nat) (sep : Option (List Nat)) (hs : ∀ c ∈ s, Scalar c)
+    (hsep : ∀ v, sep = some v → ∀ c ∈ v, Scalar c) (mx : Arg) (hlen : (s.length : Int) ≤ IntMax) :
+    agrees (strSplit (encodeAll s) (sep.map encodeAll) mx) (Spec.strSplit s sep (argToSpec mx)) :=
+  strSplit_encode s sep hs hsep mx hlen
+
+example : strSplit (encodeAll [0x61, 0xE9, 0x269, 0xE9, 0x62]) (some (encodeAll [0xE9])) (.int 1)
+    = .ok (.list [encodeAll [0x61], encodeAll [0x269, 0xE9, 0x62]]) := by decide
+
+/-! ### second round: startswith / endswith with start and end -/
+
+/-- **startswith_spec**: `s.startswith(sub or tuple of subs[, start[, end]])`, start/end code-point indices
+with Python's adjustment rules; window equivalence on top of `slice_spec` -/
+theorem startswith_spec (s : List Nat) (subs : List (List Nat)) (hs : ∀ c ∈ s, Scalar c)
+    (hsubs : ∀ sub ∈ subs, ∀ c ∈ sub, Scalar c) (a b : Arg) (hlen : (s.length : Int) < IntMax) :
+    agrees (tailMatch false (encodeAll s) (subs.map encodeAll) a b)
+      (Spec.tailMatch false s subs (argToSpec a) (argToSpec b)) :=
+  tailMatch_encode false s subs hs hsubs a b hlen
+
+/-- **endswith_spec** -/
+theorem endswith_spec (s : List Nat) (subs : List (List Nat)) (hs : ∀ c ∈ s, Scalar c)
+    (hsubs : ∀ sub ∈ subs, ∀ c ∈ sub, Scalar c) (a b : Arg) (hlen : (s.length : Int) < IntMax) :
+    agrees (tailMatch true (encodeAll s) (subs.map encodeAll) a b)
+      (Spec.tailMatch true s subs (argToSpec a) (argToSpec b)) :=
+  tailMatch_encode true s subs hs hsubs a b hlen
+
+/-- suffix matching on the stored bytes decides the code-point suffix relation: a valid needle that ends where
+the haystack ends starts at a code-point boundary -/
+theorem endswith_bytes_spec (a b : List Nat) (ha : ∀ c ∈ a, Scalar c) (hb : ∀ c ∈ b, Scalar c) :
+    hasSuffix (encodeAll a) (encodeAll b) = Spec.endsWith a b := hasSuffix_encode a b ha hb
+
+-- U+0269 = C9 A9 ends with the byte A9 that also ends U+00E9 = C3 A9: no false suffix match
+example : tailMatch true (encodeAll [0x61, 0x269]) [encodeAll [0xE9]] .absent .absent = .ok (.bool false) := by decide
+example : tailMatch true (encodeAll [0x61, 0xE9, 0x62]) [encodeAll [0xE9]] (.int (-3)) (.int (-1)) = .ok (.bool true) := by decide
+
+/-! ### second round: comparison -/
+
+/-- **cmp_spec**: the six rich comparisons. Go compares the stored bytes; the byte order of valid UTF-8 is
+the code-point order (so `'\uffff' < '\U00010000'` although UTF-16 would order them the other way) -/
+theorem cmp_spec (op : Nat) (a b : List Nat) (ha : ∀ c ∈ a, Scalar c) (hb : ∀ c ∈ b, Scalar c) :
+    strCmp op (encodeAll a) (encodeAll b) = Spec.strCmp op a b := strCmp_encode op a b ha hb
+
+/-- byte-wise `<` on encodings is lexicographic `<` on code points -/
+theorem lt_spec (a b : List Nat) (ha : ∀ c ∈ a, Scalar c) (hb : ∀ c ∈ b, Scalar c) :
+    ltBytes (encodeAll a) (encodeAll b) = Spec.ltStr a b := ltBytes_encode a b ha hb
+
+example : strCmp 0 (encodeAll [0xFFFF]) (encodeAll [0x10000]) = true := by decide
+
+/-! ### second round: indexing and slicing -/
+
+/-- **getitem_spec**: `s[i]` for every int64 `i` (negative from the end, IndexError out of range) is the one-character
+string of the i-th CODE POINT, on the ASCII fast path and on the `pos` + DecodeRune path alike; never a panic -/
+theorem getitem_spec (s : List Nat) (hs : ∀ c ∈ s, Scalar c) (i : Int) :
+    agrees (strGetItem (encodeAll s) i) (Spec.strGetItem s i) := getitem_encode s hs i
+
+/-- **getslice_spec**: `s[a:b]` for every pair of bounds (None, negative, beyond the end, beyond int64) is the
+encoding of the code points a..b. `hlen`: the string's length fits a Go int. -/
+theorem getslice_spec (s : List Nat) (hs : ∀ c ∈ s, Scalar c) (a b : Arg) (hlen : (s.length : Int) ≤ IntMax) :
+    agrees (strGetSlice (encodeAll s) a b) (Spec.strGetSlice s (argToSpec a) (argToSpec b)) :=
+  getslice_encode s hs a b hlen
+
+example : strGetItem (encodeAll [0x61, 0x1F600, 0xE9]) (-2) = .ok (.str (encodeAll [0x1F600])) := by decide
+example : strGetSlice (encodeAll [0x61, 0x1F600, 0xE9, 0x62]) (.int (-3)) (.int (2 ^ 64))
+    = .ok (.str (encodeAll [0x1F600, 0xE9, 0x62])) := by decide
+
+/-! ### the hexadecimal escapes accept hexadecimal digits only (fix 72d8969) and no value above U+10FFFF (fix 0ddaef1) -/
+
+/-- **escape_nonhex_rejected**: a `\x`, `\u` or `\U` escape (the latter two in a str literal) whose window of
+2 / 4 / 8 characters contains ANY character that is not a hexadecimal digit – a sign, `_`, `x`, a space,
+a non-ASCII character – is a ValueError ("invalid \x escape"), whatever precedes and follows. -/
+theorem escape_nonhex_rejected (bm : Bool) (f e k : Nat)
+    (h : (e = 120 ∧ k = 2) ∨ (bm = false ∧ e = 117 ∧ k = 4) ∨ (bm = false ∧ e = 85 ∧ k = 8))
+    (rest out : List Nat) (x : Nat) (hx : x ∈ rest.take k) (hnh : hexVal x = none) :
+    decodeAux bm (f + 1) (92 :: e :: rest) out = .error .value := by
+  have hp : parseUint16 (encodeAll (rest.take k)) = none := by
+    cases hv : parseUint16 (encodeAll (rest.take k)) with
+    | none => rfl
+    | some v => exact absurd hnh (parseUint16_encodeAll_some _ v hv x hx)
+  rw [decodeAux.eq_def]
+  rcases h with h | h | h
+  · obtain ⟨h1, h2⟩ := h; subst h1; subst h2
+    simp [isOct, hp]
+  · obtain ⟨h0, h1, h2⟩ := h; subst h0; subst h1; subst h2
+    simp [isOct, hp]
+  · obtain ⟨h0, h1, h2⟩ := h; subst h0; subst h1; subst h2
+    simp [isOct, hp]
+
+/-- non-vacuity of `escape_nonhex_rejected`: `\u12é4…` in a str literal, `\x1_` in a bytes literal -/
+example : (0xE9 ∈ ([49, 50, 0xE9, 52, 39] : List Nat).take 4 ∧ hexVal 0xE9 = none) ∧ (95 ∈ ([49, 95] : List Nat).take 2 ∧ hexVal 95 = none) := by decide
+
+/-- **escape_sign_rejected**: `\x+1`, `\x-1`, `\u+123`, `\U-0000001`: a sign where the first digit of a
+hexadecimal escape is expected is a ValueError in every mode, for every following text (strconv.ParseInt
+accepted it before fix 72d8969) -/
+theorem escape_sign_rejected (bm : Bool) (f s : Nat) (hs : s = 43 ∨ s = 45) (rest out : List Nat) :
+    decodeAux bm (f + 1) (92 :: 120 :: s :: rest) out = .error .value ∧
+    decodeAux false (f + 1) (92 :: 117 :: s :: rest) out = .error .value ∧
+    decodeAux false (f + 1) (92 :: 85 :: s :: rest) out = .error .value := by
+  have hnh : hexVal s = none := by rcases hs with h | h <;> (subst h; decide)
+  refine ⟨?_, ?_, ?_⟩
+  · exact escape_nonhex_rejected bm f 120 2 (by simp) _ out s (by simp) hnh
+  · exact escape_nonhex_rejected false f 117 4 (by simp) _ out s (by simp) hnh
+  · exact escape_nonhex_rejected false f 85 8 (by simp) _ out s (by simp) hnh
+
+/-- a `\U` escape whose 8 hexadecimal digits (of either case) denote a value above U+10FFFF is a ValueError -/
+theorem escape_above_maxrune_rejected_digits (f : Nat) (ds rest out : List Nat) (hl : ds.length = 8) (v : Nat)
+    (hv : parseUint16 (encodeAll ds) = some v) (hgt : 0x10FFFF < v) :
+    decodeAux false (f + 1) (92 :: 85 :: (ds ++ rest)) out = .error .value := by
+  rw [decodeAux.eq_def]
+  have htake : (ds ++ rest).take 8 = ds := by rw [← hl]; simp
+  simp [isOct, htake, hv, hgt, hl]
+
+/-- **escape_above_maxrune_rejected**: `\U` followed by the 8 digits of ANY n with 0x10FFFF < n < 2^32
+(`'\U00110000'` … `'\Uffffffff'`) is a ValueError ("illegal Unicode character"; U+FFFD was stored before
+fix 0ddaef1) -/
+theorem escape_above_maxrune_rejected (f n : Nat) (h1 : 0x10FFFF < n) (h2 : n < 2 ^ 32) (rest out : List Nat) :
+    decodeAux false (f + 1) (92 :: 85 :: (hexDigits n 8 ++ rest)) out = .error .value :=
+  escape_above_maxrune_rejected_digits f _ rest out (hexDigits_length n 8) n
+    (parseUint16_hexDigits n 8 (by omega) (by omega) (by omega)) h1
+
+/-- … while every value up to U+10FFFF is accepted and written as `WriteRune` writes it -/
+theorem escape_upto_maxrune_accepted (f n : Nat) (h : n ≤ 0x10FFFF) (rest out : List Nat) :
+    decodeAux false (f + 1) (92 :: 85 :: (hexDigits n 8 ++ rest)) out = decodeAux false f rest (out ++ encodeRune n) := by
+  rw [decodeAux_hex false f 85 8 (by simp) _ _ _ (hexDigits_length n 8) n
+    (parseUint16_hexDigits n 8 (by omega) (by omega) (by omega)) h, writeCode_nat]
+
+/-- non-vacuity: n = 0x110000 (the first rejected value) and n = 2^32 - 1 (the last) -/
+example : decodeAux false 20 (92 :: 85 :: (hexDigits 0x110000 8 ++ [97])) [] = .error .value :=
+  escape_above_maxrune_rejected 19 0x110000 (by omega) (by omega) [97] []
+
+example : decodeAux false 20 (92 :: 85 :: (hexDigits 0xFFFFFFFF 8 ++ [])) [] = .error .value :=
+  escape_above_maxrune_rejected 19 0xFFFFFFFF (by omega) (by omega) [] []
+
+example : hexDigits 0x110000 8 = [48, 48, 49, 49, 48, 48, 48, 48] ∧ hexDigits 0xFFFFFFFF 8 = [102, 102, 102, 102, 102, 102, 102, 102] := by decide
+
+/-! ### … at the level of DecodeEscape and of the lexer -/
+
+/-- `DecodeEscape` of a text whose first backslash starts `\x<sign>` is an error, whatever follows -/
+theorem decodeEscape_sign_rejected (bm : Bool) (pre post : List Nat) (s : Nat) (hs : s = 43 ∨ s = 45)
+    (hpre : 92 ∉ pre) (hsc : ∀ c ∈ pre ++ post, Scalar c) :
+    decodeEscape (encodeAll (pre ++ 92 :: 120 :: s :: post)) bm = .error .value := by
+  have hall : ∀ c ∈ pre ++ 92 :: 120 :: s :: post, Scalar c := by
+    intro c hc
+    simp only [List.mem_append, List.mem_cons] at hc
+    rcases hc with hc | hc | hc | hc | hc
+    · exact hsc c (by simp [hc])
+    · subst hc; exact scalar_of_lt _ (by omega)
+    · subst hc; exact scalar_of_lt _ (by omega)
+    · subst hc; exact scalar_of_lt _ (by omega)
+    · exact hsc c (by simp [hc])
+  have h92 : (encodeAll (pre ++ 92 :: 120 :: s :: post)).contains 92 = true := by
+    simp only [List.contains_eq_mem, decide_eq_true_eq]
+    exact mem92_encodeAll _ (by simp)
+  unfold decodeEscape
+  simp only [h92, Bool.not_true, Bool.false_eq_true, if_false]
+  rw [runes_encodeAll _ hall]
+  have hlen : (pre ++ 92 :: 120 :: s :: post).length + 1 = (post.length + 3 + 1) + pre.length := by
+    simp only [List.length_append, List.length_cons]; omega
+  rw [hlen, decodeAux_plain_prefix bm pre hpre]
+  exact (escape_sign_rejected bm _ s hs post _).1
+
+/-- **literal_sign_rejected**: a str or bytes literal (any non-raw prefix the lexer recognises, either quote)
+whose scanned body has `\x<sign>` as its first escape is a SyntaxError -/
+theorem literal_sign_rejected (line : List Nat) (byteString : Bool) (q : Nat) (t pre post rest : List Nat) (s : Nat)
+    (hs : s = 43 ∨ s = 45)
+    (hp : stringPrefix line = some (false, byteString, q :: t)) (hnt : [q, q].isPrefixOf t = false)
+    (hscan : scan q t false [] = some (some (pre ++ 92 :: 120 :: s :: post, rest)))
+    (hpre : 92 ∉ pre) (hsc : ∀ c ∈ pre ++ post, Scalar c) :
+    readString line = .error := by
+  unfold readString
+  simp only [hp, hnt, hscan, Bool.false_eq_true, if_false, decodeEscape_sign_rejected byteString pre post s hs hpre hsc]
+  split <;> rfl
+
+/-- the concrete literals (tests): `'\x+1'`, `b"\x-1"`, `'\u+123'`, `'\U00110000'` and (accepted) `'\U0010ffff'`, each followed by
+the newline of the source line -/
+example : readString [39, 92, 120, 43, 49, 39, 10] = .error := by decide
+
+example : readString [98, 34, 92, 120, 45, 49, 34, 10] = .error := by decide
+
+example : readString [39, 92, 117, 43, 49, 50, 51, 39, 10] = .error := by decide
+
+example : readString [39, 92, 85, 48, 48, 49, 49, 48, 48, 48, 48, 39, 10] = .error := by decide
+
+example : readString [39, 92, 85, 48, 48, 49, 48, 102, 102, 102, 102, 39, 10] = .ok (.str [0xF4, 0x8F, 0xBF, 0xBF]) [10] := by decide
+
+/-- non-vacuity of `literal_sign_rejected`: the hypotheses hold for `'a\x+1'` -/
+example : stringPrefix [39, 97, 92, 120, 43, 49, 39, 10] = some (false, false, 39 :: [97, 92, 120, 43, 49, 39, 10]) ∧
+    [39, 39].isPrefixOf [97, 92, 120, 43, 49, 39, 10] = false ∧
+    scan 39 [97, 92, 120, 43, 49, 39, 10] false [] = some (some ([97] ++ 92 :: 120 :: 43 :: [49], [10])) := by decide
+
+/-! ### bytes literals are ASCII only -/
+
+/-- **bytes_literal_ascii_only**: a bytes literal – ANY of the prefixes b B br Br bR BR rb rB Rb RB, raw or
+not, either quote – whose body contains a character ≥ U+0080 is a SyntaxError ("bytes can only contain
+ASCII literal characters"), wherever that character stands, escapes or not -/
+theorem bytes_literal_ascii_only (line : List Nat) (raw : Bool) (q : Nat) (t buf rest : List Nat)
+    (hp : stringPrefix line = some (raw, true, q :: t)) (hnt : [q, q].isPrefixOf t = false)
+    (hscan : scan q t false [] = some (some (buf, rest))) (c : Nat) (hc : c ∈ buf) (h80 : 0x80 ≤ c) :
+    readString line = .error := by
+  unfold readString
+  simp only [hp, hnt, hscan, Bool.false_eq_true, if_false, Bool.true_and, any_ge128_encodeAll buf c hc h80, if_true]
+
+/-- tests: `b'é'`, `rb"\é"`, `b'\xe9'` (the escape is fine) -/
+example : readString [98, 39, 0xE9, 39, 10] = .error := by decide
+
+example : readString [114, 98, 34, 92, 0xE9, 34, 10] = .error := by decide
+
+example : readString [98, 39, 92, 120, 101, 57, 39, 10] = .ok (.bytes [0xE9]) [10] := by decide
+
+/-- non-vacuity of `bytes_literal_ascii_only` at `Rb'aé'` -/
+example : stringPrefix [82, 98, 39, 97, 0xE9, 39] = some (true, true, 39 :: [97, 0xE9, 39]) ∧
+    [39, 39].isPrefixOf [97, 0xE9, 39] = false ∧ scan 39 [97, 0xE9, 39] false [] = some (some ([97, 0xE9], [])) := by decide
 
 end GPy.C14
